@@ -608,9 +608,10 @@ pub fn run(ctx: &Ctx, rep: &mut Report) {
                 );
             } else if is_harness_panic(p) {
                 rep.harness_error(format!("idx={} {}", idx, p));
-            } else if prop == "C09" && case.wfault.is_some() && (p.contains("!self.poisoned") || p.contains("!self.owner.poisoned")) {
+            } else if prop == "C09" && case.wfault.is_some() && p.contains("assertion failed") && p.contains("poisoned") && t.sends.iter().any(|s| s.is_err()) {
                 // documented refusal: a sender that wrote part of a message refuses further traffic
-                // (only write faults can poison; sender and receiver have separate buffers)
+                // (only write faults can poison; sender and receiver have separate buffers).  Recognised by the
+                // assertion on the `poisoned` flag, however the flag is spelled in the asserting expression.
                 let _ = side;
                 rep.count("poisoned-refusal");
             } else {
